@@ -564,50 +564,84 @@ Mk3(kind, x, y, z) ==
       [] kind = "InTup"      -> Cmp1("In", x, <<"Tuple", <<y, z>>>>)                 \* x in (y, z)
       [] kind = "Tuple3"     -> <<"Tuple", <<x, y, z>>>>
 
-Un1All  == UnOps \cup {"AttrP", "AttrQ", "AttrImag", "AttrPP", "Len", "Idx0", "IdxNeg", "SubOfStr", "SliceFrom1", "IsNone", "IsNotNone",
-                       "InT12", "Tuple1", "Mk1", "MkK", "StartsA", "LamBody", "LamArg", "LamDef", "FPlain", "FRepr", "FStrc", "FSpec",
-                       "FConvSpec", "FBrace", "FBraceName"}
-Bin2All == {"And", "Or"} \cup CmpOps \cup BinOps \cup {"Subscr", "SliceTo", "Tuple2", "CallF", "Mk2", "MkKw", "StartsW", "LamLet", "F2", "FSpecN"}
-Ter3All == {"IfExp", "And3", "Or3", "ChainLtLt", "ChainEqEq", "ChainLtEEq", "ChainNeIn", "Slice", "Mk3", "InTup", "Tuple3"}
+UnSeq  == <<"Not", "USub", "UAdd", "Invert">>
+BinSeq == <<"Add", "Sub", "Mult", "FloorDiv", "Mod", "Pow", "LShift", "RShift", "BitOr", "BitXor", "BitAnd">>
+CmpSeq == <<"Eq", "NotEq", "Lt", "LtE", "Gt", "GtE", "Is", "IsNot", "In", "NotIn">>
+Un1All  == UnSeq \o <<"AttrP", "AttrQ", "AttrImag", "AttrPP", "Len", "Idx0", "IdxNeg", "SubOfStr", "SliceFrom1", "IsNone", "IsNotNone",
+                      "InT12", "Tuple1", "Mk1", "MkK", "StartsA", "LamBody", "LamArg", "LamDef", "FPlain", "FRepr", "FStrc", "FSpec",
+                      "FConvSpec", "FBrace", "FBraceName">>
+Bin2All == <<"And", "Or">> \o CmpSeq \o BinSeq \o <<"Subscr", "SliceTo", "Tuple2", "CallF", "Mk2", "MkKw", "StartsW", "LamLet", "F2", "FSpecN">>
+Ter3All == <<"IfExp", "And3", "Or3", "ChainLtLt", "ChainEqEq", "ChainLtEEq", "ChainNeIn", "Slice", "Mk3", "InTup", "Tuple3">>
 
-(* named alphabets: un/bin/ter operator kinds, constant leaves, m = number of distinct names *)
+(* named alphabets: sequences of un/bin/ter operator kinds and of constant leaves, and the names *)
 Alphabets == [
     \* control flow of the decompiler: jumps of and/or/not/conditional expressions/comparison chains
-    bool   |-> [un |-> {"Not"}, bin |-> {"And", "Or", "Eq"}, ter |-> {"IfExp", "ChainLtLt"}, consts |-> {}, names |-> Names4],
-    boolc  |-> [un |-> {"Not"}, bin |-> {"And", "Or", "Eq"}, ter |-> {"IfExp"}, consts |-> {C(I(1)), C(None)}, names |-> Names3],
+    bool   |-> [un |-> <<"Not">>, bin |-> <<"And", "Or", "Eq">>, ter |-> <<"IfExp", "ChainLtLt">>, consts |-> <<>>, names |-> Names3],
+    bool4  |-> [un |-> <<"Not">>, bin |-> <<"And", "Or", "Eq">>, ter |-> <<"IfExp", "ChainLtLt">>, consts |-> <<>>, names |-> Names4],
+    boolc  |-> [un |-> <<"Not">>, bin |-> <<"And", "Or", "Eq">>, ter |-> <<"IfExp">>, consts |-> <<C(I(1)), C(None)>>, names |-> Names3],
     \* thorough: boolean/conditional only
-    cond   |-> [un |-> {"Not"}, bin |-> {"And", "Or"}, ter |-> {"IfExp"}, consts |-> {}, names |-> Names4],
+    cond   |-> [un |-> <<"Not">>, bin |-> <<"And", "Or">>, ter |-> <<"IfExp">>, consts |-> <<>>, names |-> Names3],
+    \* generator shells (x, y: loop variables)
+    gen    |-> [un |-> <<"Not">>, bin |-> <<"And", "Or", "Eq">>, ter |-> <<"IfExp">>, consts |-> <<>>, names |-> GenNames],
     \* every operator kind
-    wide   |-> [un |-> Un1All, bin |-> Bin2All, ter |-> Ter3All, consts |-> {}, names |-> Names3],
-    widec  |-> [un |-> Un1All, bin |-> Bin2All, ter |-> Ter3All, consts |-> {C(I(2)), C(Str2("a", "b")), C(None)}, names |-> Names3]
+    wide   |-> [un |-> Un1All, bin |-> Bin2All, ter |-> Ter3All, consts |-> <<>>, names |-> Names3],
+    widec  |-> [un |-> Un1All, bin |-> Bin2All, ter |-> Ter3All, consts |-> <<C(I(2)), C(Str2("a", "b")), C(None)>>, names |-> Names3]
 ]
 
-(* Level(A, prev, n)[k+1]: the set of <<tree, k'>> with exactly n operator nodes whose name leaves continue the
-   cyclic numbering at k (k name leaves are to the left); k' is the count after the tree. prev[i+1] = level i. *)
-LeafLevel(A) == [k1 \in 1 .. Len(A.names) |-> {<<N(A.names[k1]), k1 % Len(A.names)>>} \cup {<<c, k1 - 1>> : c \in A.consts}]
+(* The enumeration is written with sequences and index arithmetic (not with sets) so that TLC never has to sort
+   and compare trees: Level(A, prev, n)[k1] is the sequence of all <<tree, k'>> with exactly n operator nodes
+   whose name leaves continue the cyclic numbering after k1 - 1 earlier name leaves; k' (0-based, modulo the number
+   of names) is the position after the tree.  prev[i + 1] is level i.  For every k1 the sequences list the same
+   shapes in the same order, which is what the index arithmetic of Block2/Block3 relies on. *)
+RECURSIVE CatRange(_, _, _)
+CatRange(F(_), lo, hi) == IF lo > hi THEN <<>> ELSE F(lo) \o CatRange(F, lo + 1, hi)
 
-Level(A, prev, n, un, bin, ter) == [k1 \in 1 .. Len(A.names) |->
-    LET k == k1 - 1 IN
-    {<<Mk1(u, x[1]), x[2]>> : u \in un, x \in prev[n][k1]}
-    \cup UNION {UNION {{<<Mk2(b, x[1], y[1]), y[2]>> : b \in bin, y \in prev[n - i][x[2] + 1]}
-                       : x \in prev[i + 1][k1]} : i \in 0 .. (n - 1)}
-    \cup UNION {UNION {UNION {UNION {{<<Mk3(t, x[1], y[1], z[1]), z[2]>> : t \in ter, z \in prev[n - i - j][y[2] + 1]}
-                                     : y \in prev[j + 1][x[2] + 1]}
-                              : x \in prev[i + 1][k1]}
-                       : j \in 0 .. (n - 1 - i)}
-                : i \in 0 .. (n - 1)}]
+Leaves(A, k1) == <<<<N(A.names[k1]), k1 % Len(A.names)>>>> \o [i \in 1 .. Len(A.consts) |-> <<A.consts[i], k1 - 1>>]
+LeafLevel(A) == TLCEval([k1 \in 1 .. Len(A.names) |-> Leaves(A, k1)])
+
+Block1(un, X) ==
+    [p \in 1 .. (Len(un) * Len(X)) |->
+        LET q == p - 1  x == X[(q % Len(X)) + 1]
+        IN <<Mk1(un[(q \div Len(X)) + 1], x[1]), x[2]>>]
+Block2(bin, X, Ys) ==          \* Ys[kk]: the right operand's level for the numbering position kk
+    LET ny == Len(Ys[1]) IN
+    [p \in 1 .. (Len(bin) * Len(X) * ny) |->
+        LET q == p - 1  q1 == q \div ny
+            x == X[(q1 % Len(X)) + 1]
+            y == Ys[x[2] + 1][(q % ny) + 1]
+        IN <<Mk2(bin[(q1 \div Len(X)) + 1], x[1], y[1]), y[2]>>]
+Block3(ter, X, Ys, Zs) ==
+    LET ny == Len(Ys[1])  nz == Len(Zs[1]) IN
+    [p \in 1 .. (Len(ter) * Len(X) * ny * nz) |->
+        LET q == p - 1  q1 == q \div nz  q2 == q1 \div ny
+            x == X[(q2 % Len(X)) + 1]
+            y == Ys[x[2] + 1][(q1 % ny) + 1]
+            z == Zs[y[2] + 1][(q % nz) + 1]
+        IN <<Mk3(ter[(q2 \div Len(X)) + 1], x[1], y[1], z[1]), z[2]>>]
+
+LevelAt(A, prev, n, k1, un, bin, ter) ==
+    LET B2(i) == Block2(bin, prev[i + 1][k1], prev[n - i])
+        B3(i) == LET B3j(j) == Block3(ter, prev[i + 1][k1], prev[j + 1], prev[n - i - j]) IN CatRange(B3j, 0, n - 1 - i)
+    IN Block1(un, prev[n][k1]) \o CatRange(B2, 0, n - 1) \o CatRange(B3, 0, n - 1)
+
+Level(A, prev, n) == TLCEval([k1 \in 1 .. Len(A.names) |-> LevelAt(A, prev, n, k1, A.un, A.bin, A.ter)])
 
 RECURSIVE Levels(_, _)
 Levels(A, n) == IF n = 0 THEN <<LeafLevel(A)>>
-                ELSE LET p == Levels(A, n - 1) IN Append(p, Level(A, p, n, A.un, A.bin, A.ter))
+                ELSE LET p == Levels(A, n - 1) IN Append(p, Level(A, p, n))
 
-(* all trees with at most n operator nodes (numbering starts at the first name) *)
-Exprs(A, n) == LET ls == Levels(A, n) IN UNION {{x[1] : x \in ls[i + 1][1]} : i \in 0 .. n}
+Trees(level) == [i \in 1 .. Len(level) |-> level[i][1]]
 
-(* the same, restricted to trees with exactly n >= 1 operator nodes whose root kind is in `roots` (for splitting the work) *)
-ExprsRooted(A, n, roots) ==
-    LET p == Levels(A, n - 1)
-        top == Level(A, p, n, A.un \cap roots, A.bin \cap roots, A.ter \cap roots)
-    IN {x[1] : x \in top[1]}
+(* the trees with exactly n operator nodes, in enumeration order *)
+ExprSeqExact(A, n) == IF n = 0 THEN Trees(LeafLevel(A)[1])
+                      ELSE Trees(LevelAt(A, Levels(A, n - 1), n, 1, A.un, A.bin, A.ter))
+(* all trees with at most n operator nodes, smaller trees first *)
+ExprSeq(A, n) == IF n = 0 THEN ExprSeqExact(A, 0)
+                 ELSE LET ls == Levels(A, n - 1)
+                          Sm(i) == Trees(ls[i + 1][1])
+                      IN CatRange(Sm, 0, n - 1) \o Trees(LevelAt(A, ls, n, 1, A.un, A.bin, A.ter))
+
+(* THE SET of expressions with at most n operator nodes over alphabet A *)
+Exprs(A, n) == LET s == ExprSeq(A, n) IN {s[i] : i \in 1 .. Len(s)}
 
 =============================================================================
